@@ -23,6 +23,9 @@ theorem rfc6241_order : ∀ r ∈ opRows, orderOk r = true := by decide +kernel
     filter type, with-defaults mode, inconsistent combinations) are rejected locally, nothing is sent. -/
 theorem enumerations_enforced : ∀ r ∈ opRows, outsiderOk r = true := by decide +kernel
 
+/-- At wire level: an enumerated parameter element that is sent carries a member of its enumeration. -/
+theorem enumerated_values_on_wire : ∀ r ∈ opRows, enumValuesOk r = true := by decide +kernel
+
 /-- Every caller-supplied string lands exactly once in the request, in a text or attribute-value
     position, never as a tag. -/
 theorem caller_strings_once : ∀ r ∈ opRows, sentinelsOk r = true := by decide +kernel
